@@ -8,7 +8,7 @@ from harness import treeops as T
 
 PROPERTY = 'C01'
 LEVEL = 'model_checking'
-REACH_POINTS = ['step.applied', 'step.raised', 'copy', 'step2.applied']
+REACH_POINTS = ['ctor', 'step.applied', 'step.raised', 'copy', 'step2.applied']
 
 
 def _value(kind_idx, root, nodes, j, w):
@@ -157,10 +157,11 @@ def _copy_body(params, v0, v1, v2, v3, t, ck, w):
     c = copy.copy(node)
   elif kind == 'deepcopy':
     c = copy.deepcopy(node)
-  elif kind == 'json':
-    c = pg.from_json(pg.to_json(node))
-  elif kind == 'json_str':
-    c = pg.from_json_str(pg.to_json_str(node))
+  elif kind in ('json', 'json_str'):
+    try:
+      c = pg.from_json(pg.to_json(node)) if kind == 'json' else pg.from_json_str(pg.to_json_str(node))
+    except TypeError:
+      raise Assume()       # documented: references (pg.Ref) cannot be serialized
   elif kind == 'clone_override':
     keys = list(node.sym_keys())
     if not keys:
@@ -209,6 +210,70 @@ def _copy_body(params, v0, v1, v2, v3, t, ck, w):
   return None
 
 
+class Two(pg.Object):
+  x: pg.typing.Any() = None
+  y: pg.typing.Any() = None
+
+
+@pg.functor
+def two_fn(x, y=None):
+  return x
+
+
+NODE_KINDS = ['dict', 'list', 'object']
+CTOR_KINDS = ['dict_kwargs', 'dict_literal', 'list', 'object_kwargs', 'object_positional', 'object_and_nested_list',
+              'object_and_nested_dict', 'functor', 'object_partial', 'dict_and_nested_list', 'list_nested', 'object_clone_override',
+              'from_json_like']
+
+
+def h_ctor(params, nk, ck, attached):
+  """Construction: the same node object given for two places of a new container (the node fresh, or already part of
+  another tree). The constructed tree must satisfy the invariant: one node object never appears in two places."""
+  nk, ck, attached = concretize(nk, range(len(NODE_KINDS))), concretize(ck, range(len(CTOR_KINDS))), bool(attached)
+  with untraced():
+    node = {'dict': lambda: pg.Dict(k=pg.Dict(kk=1)), 'list': lambda: pg.List([pg.Dict(kk=1)]),
+            'object': lambda: T.Obj(d=pg.Dict(kk=1))}[NODE_KINDS[nk]]()
+    holder = pg.Dict(h=node) if attached else None
+    n = holder.h if attached else node
+    kind = CTOR_KINDS[ck]
+    if kind == 'dict_kwargs':
+      root = pg.Dict(x=n, y=n)
+    elif kind == 'dict_literal':
+      root = pg.Dict({'x': n, 'y': n})
+    elif kind == 'list':
+      root = pg.List([n, n])
+    elif kind == 'object_kwargs':
+      root = Two(x=n, y=n)
+    elif kind == 'object_positional':
+      root = Two(n, n)
+    elif kind == 'object_and_nested_list':
+      root = Two(x=n, y=[n])
+    elif kind == 'object_and_nested_dict':
+      root = Two(x=n, y={'z': n})
+    elif kind == 'functor':
+      root = two_fn(n, n)
+    elif kind == 'object_partial':
+      root = Two.partial(x=n, y=n)
+    elif kind == 'dict_and_nested_list':
+      root = pg.Dict(x=n, y=[n])
+    elif kind == 'list_nested':
+      root = pg.List([n, [n], {'z': n}])
+    elif kind == 'object_clone_override':
+      root = Two(x=1).clone(override=dict(x=n, y=n))
+    else:
+      root = pg.from_json(pg.to_json(pg.Dict(x=n, y=n)))
+    reach('ctor')
+    sig = f'ctor:{kind}:{"attached" if attached else "fresh"}'
+    r = T.inv(root)
+    if r is not None:
+      return Violation(f'{sig}:{r[0]}', f'{NODE_KINDS[nk]} node: {r[1]}')
+    if holder is not None:
+      r = T.inv(holder)
+      if r is not None:
+        return Violation(f'{sig}:source_tree:{r[0]}', r[1])
+  return None
+
+
 CORE_OPS = ['setitem', 'delitem', 'insert', 'pop', 'reverse', 'set_slice', 'iadd', 'rebind_deep', 'rebind_multi',
             'setattr', 'update', 'rebind_fn']
 
@@ -227,6 +292,7 @@ def shards(tier, seed):
     out.append(dict(name=f'copy:{skel}', fn='h_copy', params=dict(skel=skel),
                     args=[('v0', 'int'), ('v1', 'int'), ('v2', 'int'), ('v3', 'int'), ('t', 'int'), ('ck', 'int'), ('w', 'int')],
                     budget_s=b, per_path_s=15))
+  out.append(dict(name='ctor', fn='h_ctor', params={}, args=[('nk', 'int'), ('ck', 'int'), ('attached', 'bool')], budget_s=b, per_path_s=15))
   # notification-disabled scope (list re-indexing happens inside change notification)
   for skel in (['list', 'obj'] if quick else skels):
     for op in (['insert', 'delitem', 'setitem', 'rebind_insert', 'set_slice', 'pop'] if quick else T.ALL_OPS):
